@@ -190,9 +190,18 @@ def check_stale(ctx):
                 isinstance(x, ast.Subscript) and U(x.value) == cache_p)
 
     def is_mtime(x):
+        """os.path.getmtime(f), os.stat(f).st_mtime, pathlib.Path(f).stat()
+        .st_mtime"""
         x = t.expand(x)
-        return isinstance(x, ast.Call) and prog.resolve(
-            rc.module, x.func) == 'ext:os.path.getmtime'
+        if isinstance(x, ast.Call) and prog.resolve(
+                rc.module, x.func) == 'ext:os.path.getmtime':
+            return True
+        if isinstance(x, ast.Attribute) and x.attr in (
+                'st_mtime', 'st_mtime_ns') and isinstance(x.value, ast.Call):
+            r = prog.resolve(rc.module, x.value.func)
+            return r in ('ext:os.stat', 'ext:os.lstat') or bool(
+                method_call(x.value, 'stat'))
+        return False
 
     def classify(p):
         if p.outcome.kind == 'raise':
